@@ -29,6 +29,8 @@ from sc3.base import utils as utl
 CLASSES = {'SinOsc': ocl.SinOsc, 'Saw': fos.Saw, 'LFNoise0': nse.LFNoise0, 'Line': lne.Line,
            'Impulse': ocl.Impulse, 'Pan2': pan_.Pan2, 'LFSaw': ocl.LFSaw, 'XLine': lne.XLine,
            'Clip': trg.Clip, 'DC': lne.DC}
+from sc3.synth.ugens import delays as dly
+CLASSES.update({n: getattr(dly, n) for n in ('Delay1', 'DelayN', 'DelayC', 'CombL', 'AllpassC', 'BufDelayN', 'BufCombL', 'DelTapWr')})
 OPS = {'+': operator.add, '*': operator.mul, '-': operator.sub}
 ERR = {'ZeroDivisionError': 1, 'IndexError': 2, 'TypeError': 3, 'AttributeError': 4}
 
